@@ -29,8 +29,8 @@ from vf.norm import compare_packages
 from vf.xlate import BACKENDS
 
 RULE = (
-    "case = history of 1-8 translation steps (drawn from a pool of declaring / failing queries on 3 back ends, each on a new or the current "
-    "executor) followed by probes; every probe is compared with the same probe in a pristine process. non-trivial = history with >=2 steps of "
+    "case = history of 1-8 translation steps (drawn from a pool of declaring / failing queries on 3 back ends, from C09's generator of queries with one "
+    "unsupported construct - every refusal path - and from C01's generator of valid queries; each on a new or the current executor) followed by probes; every probe is compared with the same probe in a pristine process. non-trivial = history with >=2 steps of "
     "which >=1 declares something and >=1 fails, followed by a probe; distinct by (history, probe)."
 )
 
@@ -119,6 +119,24 @@ PROBES = [
     ("atlas", q(A_PT, [SCRIPT2])),  # depends on s1 that only an earlier query sent: must fail
     ("atlas", q(A_XMD, [XMD]) + " "),  # trailing blank = do NOT register the extended metadata type first: must fail in a fresh process
 ]
+
+
+
+def _gen_refused():
+    from vf.props import C09
+
+    return st.sampled_from(list(BACKENDS)).flatmap(lambda be: C09.cases(be))
+
+
+def _gen_valid():
+    from vf.gen.query import Features, queries
+    from vf.model.schema import standard_schema
+
+    return st.sampled_from(list(BACKENDS)).flatmap(lambda be: queries(standard_schema(be), Features(), fuel_range=(1, 2)).map(lambda q, be=be: (be, q.text)))
+
+
+GEN_REFUSED = _gen_refused()
+GEN_VALID = _gen_valid()
 
 # ---------------------------------------------------------------- child process
 
@@ -293,6 +311,26 @@ class History(RuleBasedStateMachine):
             raise RuntimeError("harness failure in child: " + r["msg"])
         self.steps.append({"label": label, "backend": backend, "text": text, "executor": executor, "bad_outdir": bad_outdir, "xmd": xmd, "declares": declares,
                            "failed": not r["ok"]})
+
+    @rule(c=GEN_REFUSED, executor=st.sampled_from(["new", "same", "same"]))
+    def translate_generated_refused(self, c, executor):
+        """a generated query with one unsupported construct grafted in (C09's catalogue): every refusal path of the translator"""
+        if c.get("text") is None:
+            return
+        r = self.child.call({"backend": c["backend"], "text": c["text"], "executor": executor, "bad_outdir": False, "xmd": False})
+        if r.get("exc") == "HARNESS":
+            raise RuntimeError("harness failure in child: " + r["msg"])
+        self.steps.append({"label": "generated-refused:" + c["kind"], "backend": c["backend"], "text": c["text"], "executor": executor, "bad_outdir": False, "xmd": False,
+                           "declares": True, "failed": not r["ok"]})
+
+    @rule(c=GEN_VALID, executor=st.sampled_from(["new", "same", "same"]))
+    def translate_generated(self, c, executor):
+        """a generated valid query (the query generator of C01) carrying the standard type declarations"""
+        backend, text = c
+        r = self.child.call({"backend": backend, "text": text, "executor": executor, "bad_outdir": False, "xmd": False})
+        if r.get("exc") == "HARNESS":
+            raise RuntimeError("harness failure in child: " + r["msg"])
+        self.steps.append({"label": "generated-valid", "backend": backend, "text": text, "executor": executor, "bad_outdir": False, "xmd": False, "declares": True, "failed": not r["ok"]})
 
     @precondition(lambda self: len(self.steps) >= 1)
     @rule(probe=st.sampled_from(PROBES), executor=st.sampled_from(["new", "same"]))
